@@ -162,6 +162,19 @@ def shape_regex(spec):
     raise ValueError(k)
 
 
+def _scribble(F, f):
+    """mutate every list inside a parsed tree (the dataclasses are frozen, their lists are not)"""
+    n = type(f).__name__
+    if n in ("FilterAnd", "FilterOr"):
+        for x in list(f.filters):
+            _scribble(F, x)
+        f.filters.append(F.FilterPresent("scribble"))
+    elif n == "FilterNot":
+        _scribble(F, f.filter)
+    elif n == "FilterSubstrings":
+        f.any.append(b"scribble")
+
+
 def body(ctx, shape):
     F = ctx.L.filter
     g = G(ctx, shape)
@@ -177,5 +190,19 @@ def body(ctx, shape):
         ctx.observe("exc", type(e).__name__)
         ctx.fail("text-form-rejected", f"{type(e).__name__}@{exc_site(e)}")
     ctx.require(ctx.eq(f2, f), "reparsed-filter-differs")
+    # the parsed tree belongs to the caller: changing it, or earlier rejected input, must not
+    # influence what the same text parses to afterwards
+    _scribble(F, f2)
+    for bad in ("(", "(&(a=b)", "(a=\\zz)", "((a=b))", "(!(a=b)(c=d))", "a"):
+        for _ in range(3):
+            try:
+                F.LDAPFilter.from_string(bad)
+            except ValueError:
+                pass
+    try:
+        f3 = F.LDAPFilter.from_string(text)
+    except Exception as e:  # noqa: BLE001
+        ctx.fail("second-parse-of-the-same-text-rejected", f"{type(e).__name__}@{exc_site(e)}")
+    ctx.require(ctx.eq(f3, f), "second-parse-of-the-same-text-differs")
     if len(text) <= 60:
         ctx.require(relang.member(ctx, text, shape_regex(shape["spec"])), "text-form-not-rfc4515")
